@@ -467,3 +467,5 @@ Definition set_run a s := {| s_gen := s_gen s; s_dist := s_dist s; s_prep := s_p
 Definition set_rewrite c s := {| s_gen := s_gen s; s_dist := s_dist s; s_prep := s_prep s; s_put := s_put s; s_alloc := s_alloc s;
   s_submit := s_submit s; s_run := s_run s; s_rewrite := Some c; s_local := s_local s |}.
 
+Definition set_dist d s := {| s_gen := s_gen s; s_dist := d; s_prep := s_prep s; s_put := s_put s; s_alloc := s_alloc s;
+  s_submit := s_submit s; s_run := s_run s; s_rewrite := s_rewrite s; s_local := s_local s |}.
